@@ -119,6 +119,10 @@ func (f *far) parseFAR(farIE *ie.IE, fseid uint64, upf *upf, op operation) error
 				continue
 			}
 
+			if ohcFields.IPv4Address == nil {
+				return ErrUnsupported("Outer Header Creation without IPv4 address", ohcFields.OuterHeaderCreationDescription)
+			}
+
 			f.tunnelTEID = ohcFields.TEID
 			f.tunnelIP4Dst = ip2int(ohcFields.IPv4Address)
 			f.tunnelType = uint8(1) // FIXME: what does it mean?
